@@ -206,9 +206,11 @@ SE2Base<_Derived>::inverse(OptJacobianRef J_minv_m) const
     (*J_minv_m) = -adj();
   }
 
+  // the inverse rotation is the complex conjugate: going through
+  // atan2/cos/sin instead loses the last bits and with them X^-1 * X = I
   return LieGroup(-x()*real() - y()*imag(),
                    x()*imag() - y()*real(),
-                           -angle()        );
+                   real(), -imag()          );
 }
 
 template <typename _Derived>
